@@ -6,7 +6,7 @@
    All theorems quantify over EVERY state reachable by ANY trace of `step`
    (= every interleaving of reader, workers, flushers, writer and SIGINT
    watchdog, for every sequence of client requests, of any length), and over
-   both code variants `fx` (false: nrepl.rs as found; true: with fix-1).
+   all three code variants `pv` of Nrepl.v (as found; with fix-1; the current code with fix-1 and fix-2).
 
    Vocabulary: `st_sent` = every message ever put on the response channel,
    newest first (ghost); `st_wire` = what the writer has written to the socket,
@@ -22,31 +22,31 @@ From Garden Require Import Nrepl NreplProps.
    idle, every request queue empty, every worker idle or exited, response
    channel drained -- i.e. under A-NOPANIC and after every eval has returned)
    every request received so far has EXACTLY one `done` on the socket. *)
-Theorem one_done_per_id : forall fx st r, reachable fx st ->
+Theorem one_done_per_id : forall pv st r, reachable pv st ->
   done_cnt r (st_sent st) <= 1 /\
   done_cnt r (st_wire st) <= 1 /\
   (st_next st <= r -> done_cnt r (st_sent st) = 0) /\
   (quiescent st = true -> r < st_next st -> done_cnt r (st_wire st) = 1).
 Proof.
-  intros fx st r R. repeat split.
-  - exact (one_done_sent fx st r R).
-  - exact (one_done_wire fx st r R).
-  - exact (no_done_unreceived fx st r R).
-  - exact (exactly_one_done_quiescent fx st r R).
+  intros pv st r R. repeat split.
+  - exact (one_done_sent pv st r R).
+  - exact (one_done_wire pv st r R).
+  - exact (no_done_unreceived pv st r R).
+  - exact (exactly_one_done_quiescent pv st r R).
 Qed.
 Print Assumptions one_done_per_id.
 
 (* `quiescent` is exactly "no internal move is enabled" in one direction: a
    quiescent state has no enabled reader/worker/flusher/writer step (only new
    client input, SIGINT, or the exit of a closed idle worker can happen). *)
-Theorem quiescent_is_stuck : forall fx st l, reachable fx st -> quiescent st = true -> internal l = true ->
-  enabled fx st l = false.
+Theorem quiescent_is_stuck : forall pv st l, reachable pv st -> quiescent st = true -> internal l = true ->
+  enabled pv st l = false.
 Proof. exact quiescent_stuck. Qed.
 Print Assumptions quiescent_is_stuck.
 
 (* The `done` is the last message with its id: nothing written to the socket
    after `MDone r` carries id r. *)
-Theorem done_is_last_for_id : forall fx st a r s older, reachable fx st ->
+Theorem done_is_last_for_id : forall pv st a r s older, reachable pv st ->
   st_wire st = a ++ MDone r s :: older -> forall m, In m a -> mid m <> r.
 Proof. exact done_last_wire. Qed.
 Print Assumptions done_is_last_for_id.
@@ -54,7 +54,7 @@ Print Assumptions done_is_last_for_id.
 (* Every piece of text request r printed (ever: `st_printed` is the whole
    history) is contained, in order and per stream, in the out/err messages that
    were put on the response channel BEFORE r's `done`. *)
-Theorem out_before_done : forall fx st pre r s older k x, reachable fx st ->
+Theorem out_before_done : forall pv st pre r s older k x, reachable pv st ->
   st_sent st = pre ++ MDone r s :: older ->
   ptoks k r x (st_printed st) = toks k r x older.
 Proof. exact output_before_done_sent. Qed.
@@ -64,7 +64,7 @@ Print Assumptions out_before_done.
    the concatenation of the out (resp. err) chunks for r equals exactly what r
    printed on that stream -- complete, in order, nothing duplicated, nothing
    from another request or session. *)
-Theorem output_complete_in_order : forall fx st a r s older k x, reachable fx st ->
+Theorem output_complete_in_order : forall pv st a r s older k x, reachable pv st ->
   st_wire st = a ++ MDone r s :: older ->
   toks k r x older = ptoks k r x (st_printed st).
 Proof. intros. symmetry. eapply output_before_done_wire; eauto. Qed.
@@ -75,12 +75,12 @@ Print Assumptions output_complete_in_order.
    session k only ever resolves a definition that session k itself loaded
    (clone starts from an empty Env, it does not copy). *)
 Theorem sessions_isolated :
-  (forall fx st k a st' j, step fx st (LWorker k a) = Some st' -> j <> k ->
+  (forall pv st k a st' j, step pv st (LWorker k a) = Some st' -> j <> k ->
      nth_error (st_sess st') j = nth_error (st_sess st) j) /\
-  (forall fx st k a st' j, step fx st (LFlusher k a) = Some st' -> j <> k ->
+  (forall pv st k a st' j, step pv st (LFlusher k a) = Some st' -> j <> k ->
      nth_error (st_sess st') j = nth_error (st_sess st) j) /\
-  (forall fx tr st k d st', exec fx init tr = Some st ->
-     step fx st (LWorker k (WASees d)) = Some st' -> In (LWorker k (WADefine d)) tr).
+  (forall pv tr st k d st', exec pv init tr = Some st ->
+     step pv st (LWorker k (WASees d)) = Some st' -> In (LWorker k (WADefine d)) tr).
 Proof. repeat split; [exact worker_frame | exact flusher_frame | exact sees_only_own_defs]. Qed.
 Print Assumptions sessions_isolated.
 
@@ -88,7 +88,7 @@ Print Assumptions sessions_isolated.
    the final drain the rest) reaches a quiescent state whose socket history has
    the shape the theorems talk about. *)
 Example c30_hypotheses_satisfiable :
-  reachable true demo_state /\ quiescent demo_state = true /\
+  reachable VFix2 demo_state /\ quiescent demo_state = true /\
   st_wire demo_state = [MDone 1 StDone; MText 0 1; MOut 0 1 SErr [9]; MOut 0 1 SErr [8]; MOut 0 1 SOut [7]; MDone 0 StDone] /\
   ptoks 0 1 SErr (st_printed demo_state) = [8; 9] /\ ptoks 0 1 SOut (st_printed demo_state) = [7].
 Proof. split; [exact demo_reachable | apply demo_ok]. Qed.
